@@ -506,6 +506,29 @@ pub fn run<W: Write>(opts: &Opts, out: &mut W) {
         emit_mp4(out, &format!("mp4-gap-{gap}"), &s, &Cfg { max: 4096, cum: None }, Kind::Seekable, &media, &mut r);
     }
 
+    // several movie boxes, each close to the limit: only the last one counts, and the peak heap must not follow their
+    // number (a sanitizer that keeps the earlier ones alive holds n x limit)
+    for (k, (n, max)) in [(12u64, 1u64 << 16), (40, 1 << 14), (6, 1 << 20), (24, 1 << 16)].into_iter().enumerate() {
+        if !opts.mine(20 + k as u64) {
+            continue;
+        }
+        let mut media = vec![];
+        let mut s = Sparse::new();
+        let mut r = rng.fork(515151 + k as u64);
+        s.push(&bx(b"ftyp", &ftyp_payload(&mut r, true, 2, 0), Enc::S32));
+        push_sized(&mut s, b"mdat", 1 << 20, &mut media);
+        for _ in 0..n {
+            let t = rand_trak(&mut r, 2, false);
+            let mut mp = moov_payload(&mut r, &[t], false);
+            let target = max - 64 - r.below(64);
+            if target > mp.len() as u64 + 8 {
+                mp.extend(bx(b"udta", &vec![0x5a; (target - mp.len() as u64 - 8) as usize], Enc::S32));
+            }
+            s.push(&bx(b"moov", &mp, Enc::S32));
+        }
+        emit_mp4(out, &format!("mp4-many-moov-{n}x{max}"), &s, &Cfg { max, cum: None }, if k % 2 == 0 { Kind::Seekable } else { Kind::Strict }, &media, &mut r);
+    }
+
     // webpsan: declared dimensions and chunk sizes must not matter
     let pl = payloads(&mut rng.fork(9));
     let mut wcases: Vec<(String, Vec<u8>, (u32, u32))> = vec![];
